@@ -1,6 +1,7 @@
 package main
 
 import (
+	"go/token"
 	"fmt"
 	"strings"
 
@@ -344,6 +345,68 @@ func checkC37(c *Ctx, r *Report) {
 			// the scanned list is queryTopics' result
 			if !dependsOnCall(cv.Call.Args[len(cv.Call.Args)-1], pkgSQLProxy+".queryTopics") {
 				okScan = false
+			}
+		}
+		// the same scan through the library: slices.IndexFunc / ContainsFunc over queryTopics' result with
+		// a predicate that is true exactly when acl.Allows(topic) is false, and `found → return false`
+		if !okScan {
+			for _, call := range findCalls(aq, "slices.IndexFunc", "slices.ContainsFunc") {
+				cv, ok := call.(*ssa.Call)
+				if !ok || len(cv.Call.Args) != 2 || !dependsOnCall(cv.Call.Args[0], pkgSQLProxy+".queryTopics") {
+					continue
+				}
+				mc, ok := cv.Call.Args[1].(*ssa.MakeClosure)
+				if !ok {
+					continue
+				}
+				pf := mc.Fn.(*ssa.Function)
+				predOK := len(pf.Params) == 1
+				nRet := 0
+				for _, b := range pf.Blocks {
+					ret, ok := b.Instrs[len(b.Instrs)-1].(*ssa.Return)
+					if !ok || len(ret.Results) != 1 {
+						continue
+					}
+					nRet++
+					switch x := strip(ret.Results[0]).(type) {
+					case *ssa.UnOp:
+						ac, isCall := strip(x.X).(*ssa.Call)
+						if x.Op != token.NOT || !isCall || !strings.HasSuffix(calleeName(&ac.Call), "ACL).Allows") || strip(ac.Call.Args[len(ac.Call.Args)-1]) != ssa.Value(pf.Params[0]) {
+							predOK = false
+						}
+					default:
+						predOK = false
+					}
+				}
+				if !predOK || nRet == 0 {
+					continue
+				}
+				isIndex := strings.HasSuffix(calleeName(&cv.Call), "IndexFunc")
+				for _, b := range aq.Blocks {
+					ifi, ok := b.Instrs[len(b.Instrs)-1].(*ssa.If)
+					if !ok {
+						continue
+					}
+					for si, truth := range []bool{true, false} {
+						l := litOf(ifi.Cond, truth)
+						found := false
+						if isIndex {
+							k, isK := constInt(l.Y)
+							found = strip(l.X) == ssa.Value(cv) && isK && ((l.Op == token.GEQ && k == 0) || (l.Op == token.NEQ && k == -1) || (l.Op == token.GTR && k == -1))
+						} else {
+							found = l.Op == token.ILLEGAL && !l.Neg && strip(l.X) == ssa.Value(cv)
+						}
+						if !found {
+							continue
+						}
+						tgt := followJumps(b.Succs[si])
+						if ret, ok := tgt.Instrs[len(tgt.Instrs)-1].(*ssa.Return); ok {
+							if k, ok := strip(ret.Results[0]).(*ssa.Const); ok && k.Value != nil && k.Value.ExactString() == "false" {
+								okScan = true
+							}
+						}
+					}
+				}
 			}
 		}
 		if okScan {
